@@ -659,6 +659,9 @@ func (c *cenv) call(n *ast.CallExpr) Val {
 				}
 			case "callres":
 				return c.errf("callres cannot be used in a contract that is applied at call sites")
+			case "loopCompleted", "returnedInLoop":
+				// facts about the callee's own control flow: unknown to the caller
+				return termVal(boolT, sBool, e.D.fresh("callee_"+id.Name, sBool))
 			}
 		}
 		switch id.Name {
